@@ -8,7 +8,7 @@ HOOK_COMMITS = ["0c039eb"]
 POOL_NOTE = ("Thorough tier adds a coverage-guided libFuzzer leg (cargo-fuzz target fz_pool: bytes decoded into a pool history, same interpreter and monitors). Trusted base: tokio current_thread scheduler with paused clock (spawned pool tasks run only at "
              "explicit Bg steps); the scripted transport/protocol/connection collaborators, whose connection "
              "models HttpConnection readiness (is_open = open && (ready || multiplexed)); ground truth kept by the "
-             "harness only. Liveness is bounded: 'eventually' = by the end of a deterministic drain.")
+             "harness only. Liveness is bounded: 'eventually' = by the end of a deterministic drain. Every pool check also runs a corpus-mutation leg: seed histories (replays/corpus/poolsim, replays/regress) with 0-5 random edits.")
 
 CHECKS = {
     "C02": dict(engine="poolsim", ref="§5 C02, §4 E1",
@@ -55,7 +55,7 @@ CHECKS.update({
         note=EYE_NOTE),
     "C16": dict(engine="addrsort", ref="§5 C16, §4 E7",
         technique="exhaustive small-scope enumeration plus property-based testing against an independent specification (stable partition); end-to-end differential leg over loopback listeners",
-        text="All IPv4/IPv6 family patterns up to length 8 (quick) / 12 (thorough) for the four local-binding combinations, exhaustively, plus random lists with duplicates: output is a permutation, first/second element and remainder order equal the specification, set_port applies to every address; through TcpTransport with a scripted resolver and local bindings (none, loopback, wildcard) the socket is opened to the URI's port (explicit, or 80/443 by scheme) whatever port the resolver's answer carries, through TcpTransport and SimpleTcpTransport; the accepted peer is the first live address of the specified order, with unlimited concurrency the attempts reach one dual-stack listener in the specified order (arrival order = start order); also when addresses in front of it hang (listeners that never answer: the next address is tried after the stagger delay).",
+        text="All IPv4/IPv6 family patterns up to length 8 (quick) / 12 (thorough) for the four local-binding combinations, exhaustively, plus random lists with duplicates: output is a permutation, first/second element and remainder order equal the specification, set_port applies to every address; through TcpTransport with a scripted resolver and local bindings (none, loopback, wildcard) the socket is opened to the URI's port (explicit, or 80/443 by scheme) whatever port the resolver's answer carries, through TcpTransport and SimpleTcpTransport; the accepted peer is the first live address of the specified order, with unlimited concurrency the attempts reach one dual-stack listener in the specified order (arrival order = start order), through the Service impl and through connect_to_addrs; also when addresses in front of it hang (listeners that never answer: the next address is tried after the stagger delay).",
         note="Trusted base: the hook wrappers call the crate-private routines unchanged; loopback networking for the end-to-end leg (dead addresses are sockets held bound without listening: refused at once, immediate compared with the >= 570 ms stagger, and not bindable by anyone else meanwhile)."),
     "C20": dict(engine="sni+tlsstack", ref="§5 C20, §4 E10, §10.3",
         technique="grammar-based property testing of the public ValidateSNI layer against an independent reference predicate (two-directional: never forwarded on mismatch, never rejected on match)",
@@ -104,7 +104,7 @@ CHECKS.update({
         note=NET_NOTE),
     "C07": dict(engine="netsim", ref="§5 C07, §4 E2",
         technique="virtual-time schedule generation: the graceful-shutdown signal instant is swept relative to accept, protocol detection, request transfer, handler execution and response transfer; history invariants over the handler log, the executor-wrapped connection tasks and the client results",
-        text="Serving future resolves Ok exactly at the signal; every request whose handler started before the signal receives its complete correct response; every connection task (including idle keep-alive connections and connections still in protocol detection) finishes while the clients keep their ends open; nothing is accepted or served on a connection accepted after the signal. A raw HTTP/1 client may pipeline a second request behind a slow first one: the first, once its handler started before the signal, must still be answered completely. A second leg resolves the signal synchronously while the k-th connection of a burst of simultaneous connects is being accepted (in the middle of one poll of the serving future): no connection beyond the k-th may be accepted or served.",
+        text="Serving future resolves Ok exactly at the signal; every request whose handler started before the signal receives its complete correct response; every connection task (including idle keep-alive connections and connections still in protocol detection) finishes while the clients keep their ends open; nothing is accepted or served on a connection accepted after the signal. A slow-make-service leg (engine makegate) lets the signal fall into a state in which the make-service future of a fresh connection (or its poll_ready) is pending: the serving future must still resolve at the signal, a connection whose service arrives later is not served, idle keep-alive connections are closed. A raw HTTP/1 client may pipeline a second request behind a slow first one: the first, once its handler started before the signal, must still be answered completely. A second leg resolves the signal synchronously while the k-th connection of a burst of simultaneous connects is being accepted (in the middle of one poll of the serving future): no connection beyond the k-th may be accepted or served.",
         note=NET_NOTE + " Idle holders are only placed where hyper itself closes them on graceful shutdown (auto-detecting and idle HTTP/1 connections)."),
     "C09": dict(engine="netsim+socksrv+tlsstack", ref="§5 C09, §4 E2, §10.3",
         technique="fault-sequence generation in virtual time: per-connection faults (cancelled connect, disconnects, garbage, truncated head/body, mid-response disconnect, partial preface, clients asking for a 0- or 1-byte pipe, handler errors) interleaved with well-behaved requests; oracle = serving futures still pending, probe client served, other requests correct",
